@@ -323,11 +323,13 @@ type memCase struct {
 	User     string              `json:"user"`
 	Dir      []string            `json:"dir"`
 	DirErr   bool                `json:"dirErr"`
+	Running  []string            `json:"running"` // groups whose refresh loop is already registered (RefreshLoop answers false)
 }
 
 type memCache struct {
-	data  map[string][]string
-	loops []string
+	data    map[string][]string
+	loops   []string
+	running []string
 }
 
 func (c *memCache) Get(g string) (groups.MemberSet, bool) {
@@ -344,7 +346,7 @@ func (c *memCache) Get(g string) (groups.MemberSet, bool) {
 func (c *memCache) Update(string) bool { return false }
 func (c *memCache) RefreshLoop(g string) bool {
 	c.loops = append(c.loops, g)
-	return true
+	return !containsStr(c.running, g)
 }
 func (c *memCache) Stop() {}
 
@@ -363,7 +365,7 @@ func (a *memGoogleAdmin) CheckMemberships(gs []string, user string) ([]string, e
 }
 
 func memRunCase(c memCase) M {
-	cache := &memCache{data: c.Cache}
+	cache := &memCache{data: c.Cache, running: c.Running}
 	var res []string
 	var err error
 	asked := 0
@@ -464,6 +466,9 @@ func init() {
 			emit(memRunCase(memCase{Provider: prov, Cache: map[string][]string{}, Asked: []string{"g1", "g2"}, User: "u", Dir: []string{"g1"}}))
 			emit(memRunCase(memCase{Provider: prov, Cache: map[string][]string{}, Asked: []string{"g1"}, User: "u", DirErr: true}))
 			emit(memRunCase(memCase{Provider: prov, Cache: map[string][]string{"g1": {"u"}}, Asked: []string{}, User: "u", Dir: []string{"g1"}}))
+			// uncached although the group's refresh loop is already registered (first fill failed / still in flight)
+			emit(memRunCase(memCase{Provider: prov, Cache: map[string][]string{"g1": {"u"}}, Asked: []string{"g1", "g2"}, User: "u", Dir: []string{"g1", "g2"}, Running: []string{"g2"}}))
+			emit(memRunCase(memCase{Provider: prov, Cache: map[string][]string{}, Asked: []string{"g2"}, User: "u", Dir: []string{"g2"}, Running: []string{"g2"}}))
 		}
 		// random
 		emails := []string{"a@x.io", "b@x.io", "A@x.io"}
@@ -564,6 +569,9 @@ func init() {
 					}
 				}
 				c.Asked = subset(gnames[:3])
+				if rng.Intn(2) == 0 {
+					c.Running = subset(gnames[:3])
+				}
 				if rng.Intn(6) == 0 {
 					c.DirErr = true
 				} else {
